@@ -161,6 +161,10 @@ TecmpPayloadPtr TECMP::Decoder::GetCanPayload(const uint8_t* payloadData, const 
 
 TecmpPayloadPtr TECMP::Decoder::GetLinPayload(const uint8_t* payloadData, const std::size_t size)
 {
+    // pid, data length and the data bytes must lie inside the payload
+    if (size < 2 || size - 2 < payloadData[1])
+        return {};
+
     LinPayload payload(payloadData, size);
     if (payload.isValid())
         return std::make_shared<Payload>(payload);
